@@ -96,7 +96,7 @@ HDR = "{R : Type} [CommRing R] (n : Nat) (sig : Nat → R)"
 
 def main():
     repo = Path(sys.argv[sys.argv.index('--repo') + 1]) if '--repo' in sys.argv else Path('/repo')
-    out = ["import Proofs.Invol\nimport Proofs.Graded\nimport Proofs.Blade\nimport Proofs.InvProps\n\n"
+    out = ["import Proofs.Invol\nimport Proofs.Graded\nimport Proofs.Blade\nimport Proofs.InvProps\nimport Model.Dispatch\n\n"
            "/-! GENERATED from the current source by translate/methods2lean.py — do not edit -/\n"
            "set_option linter.unusedVariables false\nnamespace GenMeth\nvariable {R : Type} [CommRing R] (n : Nat) (sig : Nat → R)\n\n"]
     status, thms = {}, []
@@ -226,6 +226,76 @@ def main():
         return f"def dual_with (M Iinv : CMV n R) : CMV n R := {t}\n"
     emit('meth_dual', g_dual,
          f"theorem meth_dual_eq {HDR} (M Iinv : CMV n R) : GenMeth.dual_with n sig M Iinv = gmul n sig M Iinv := by\n  simp only [GenMeth.dual_with]\n")
+
+    # ---- the binary operators: which table kernel, operand order, what a scalar operand does (the frame of each method)
+    def g_operators():
+        cls = [n_ for n_ in tree.body if isinstance(n_, ast.ClassDef) and n_.name == 'MultiVector'][0]
+        aliases = {ast.unparse(st.targets[0]): ast.unparse(st.value) for st in cls.body if isinstance(st, ast.Assign) and len(st.targets) == 1}
+        rows = []
+        kernels = {'__mul__': ('gmt_func', False), '__rmul__': ('gmt_func', True), '__xor__': ('omt_func', False), '__rxor__': ('omt_func', True),
+                   '__or__': ('imt_func', False), '__ror__': ('imt_func', True)}
+        for name, (kern, swapped) in kernels.items():
+            f, b = method(tree, name)
+            sym = {'mul': '*', 'xor': '^', 'or': '|'}[name.strip('_').lstrip('r')]
+            if len(b) != 3 or not isinstance(b[1], ast.If) or ast.unparse(b[1].test) != 'mv' or ast.unparse(b[2]) != 'return self._newMV(newValue)':
+                raise Refuse(f"{name}: frame is not `other, mv = _checkOther(..); if mv: .. else: ..; return self._newMV(newValue)`")
+            chk = ast.unparse(b[0])
+            want_chk = 'other, mv = self._checkOther(other, coerce=False)' if kern != 'imt_func' else 'other, mv = self._checkOther(other)'
+            if chk != want_chk:
+                raise Refuse(f"{name}: {chk}")
+            a_, b_ = ('other.value', 'self.value') if swapped else ('self.value', 'other.value')
+            if [ast.unparse(z) for z in b[1].body] != [f'newValue = self.layout.{kern}({a_}, {b_})']:
+                raise Refuse(f"{name}: multivector branch is {[ast.unparse(z) for z in b[1].body]}")
+            els = b[1].orelse
+            if len(els) != 2 or not isinstance(els[0], ast.If) or ast.unparse(els[0].test) != 'isinstance(other, np.ndarray)':
+                raise Refuse(f"{name}: scalar branch frame")
+            arr = [ast.unparse(z) for z in els[0].body]
+            if arr != ['obj = self.__array__()', f'return other {sym} obj' if swapped else f'return obj {sym} other']:
+                raise Refuse(f"{name}: ndarray branch {arr}")
+            tail = ast.unparse(els[1])
+            if kern == 'imt_func':
+                if tail != 'return self._newMV(dtype=np.result_type(self.value.dtype, other))':
+                    raise Refuse(f"{name}: scalar branch {tail}")
+                scalar = 'zero'
+            else:
+                if tail not in ('newValue = other * self.value', 'newValue = self.value * other'):
+                    raise Refuse(f"{name}: scalar branch {tail}")
+                scalar = 'scale'
+            rows.append((name, kern, 'other,self' if swapped else 'self,other', scalar))
+        # additive operators: the scalar is coerced to the grade-0 multivector, then the arrays are added / subtracted
+        for name, expr in (('__add__', 'self.value + other.value'), ('__sub__', 'self.value - other.value'), ('__rsub__', 'other.value - self.value')):
+            f, b = method(tree, name)
+            if len(b) != 4 or ast.unparse(b[0]) != 'other, mv = self._checkOther(other)' or not isinstance(b[1], ast.If) or ast.unparse(b[1].test) != 'not mv' \
+                    or ast.unparse(b[2]) != f'newValue = {expr}' or ast.unparse(b[3]) != 'return self._newMV(newValue)':
+                raise Refuse(f"{name}: frame")
+            inner = b[1].body
+            if len(inner) != 1 or not isinstance(inner[0], ast.If) or ast.unparse(inner[0].test) != 'isinstance(other, np.ndarray)' or b[1].orelse or inner[0].orelse:
+                raise Refuse(f"{name}: ndarray branch")
+            rows.append((name, 'array', expr.replace('.value', '').replace(' ', ''), 'coerce'))
+        if aliases.get('__radd__') != '__add__':
+            raise Refuse("__radd__ is not __add__")
+        rows.append(('__radd__', 'alias', '__add__', 'coerce'))
+        f, b = method(tree, 'lc')
+        if [ast.unparse(z) for z in b] != ['other, mv = self._checkOther(other, coerce=True)', 'newValue = self.layout.lcmt_func(self.value, other.value)',
+                                          'return self._newMV(newValue)']:
+            raise Refuse(f"lc: {[ast.unparse(z) for z in b]}")
+        rows.append(('lc', 'lcmt_func', 'self,other', 'coerce'))
+        f, b = method(tree, '__lshift__')
+        if [ast.unparse(z) for z in b] != ['return self.lc(other)']:
+            raise Refuse("__lshift__ is not self.lc(other)")
+        rows.append(('__lshift__', 'alias', 'lc', 'coerce'))
+        f, b = method(tree, 'vee')
+        if [ast.unparse(z) for z in b] != ['return self.layout.MultiVector(value=self.layout.vee_func(self.value, other.value))']:
+            raise Refuse("vee frame")
+        rows.append(('vee', 'vee_func', 'self,other', 'mv-only'))
+        f, b = method(tree, '__and__')
+        if [ast.unparse(z) for z in b] != ['return self.vee(other)']:
+            raise Refuse("__and__ is not self.vee(other)")
+        rows.append(('__and__', 'alias', 'vee', 'mv-only'))
+        rows = sorted(rows)
+        return ("def operator_table : List (String × String × String × String) := ["
+                + ", ".join(f'("{a}", "{b_}", "{c}", "{d}")' for a, b_, c, d in rows) + "]\n")
+    emit('meth_operators', g_operators, "theorem meth_operators_eq : GenMeth.operator_table = Model.operatorTable := by decide\n")
 
     out.append("end GenMeth\n\n")
     names = {}
